@@ -668,27 +668,40 @@ UnitsMap defineUnitsMap(const UnitsPtr &units)
     return unitsMap;
 }
 
-bool Units::requiresImports() const
+bool doUnitsRequireImports(const UnitsConstPtr &units, std::vector<const Units *> &unitsBeingTested)
 {
     // Function to check child unit dependencies for imports.
-    if (isImport()) {
+    if (units->isImport()) {
         return true;
     }
 
-    auto model = owningModel(shared_from_this());
+    // Units that (directly or indirectly) refer to themselves have no further imports to find.
+    if (std::find(unitsBeingTested.begin(), unitsBeingTested.end(), units.get()) != unitsBeingTested.end()) {
+        return false;
+    }
+    unitsBeingTested.push_back(units.get());
+
+    bool result = false;
+    auto model = owningModel(units);
     if (model != nullptr) {
-        for (size_t u = 0; u < unitCount(); ++u) {
-            const std::string ref = unitAttributeReference(u);
+        for (size_t u = 0; !result && (u < units->unitCount()); ++u) {
+            const std::string ref = units->unitAttributeReference(u);
             auto child = model->units(ref);
-            if ((child == nullptr) || (this == child.get())) {
-                continue;
-            }
-            if (child->requiresImports()) {
-                return true;
+            if (child != nullptr) {
+                result = doUnitsRequireImports(child, unitsBeingTested);
             }
         }
     }
-    return false;
+
+    unitsBeingTested.pop_back();
+
+    return result;
+}
+
+bool Units::requiresImports() const
+{
+    std::vector<const Units *> unitsBeingTested;
+    return doUnitsRequireImports(shared_from_this(), unitsBeingTested);
 }
 
 bool Units::compatible(const UnitsPtr &units1, const UnitsPtr &units2)
